@@ -189,6 +189,15 @@ def discharge(vcs, budgets=(8, 30, 60), workers=14) -> list[Obligation]:
         with ProcessPoolExecutor(max_workers=workers) as ex:
             for vid, r, detail, backend, dt, model in ex.map(discharge_one, jobs, chunksize=1):
                 results[vid] = (r, detail, backend, dt, model)
+    # undecided obligations are retried one at a time with the machine to themselves (verdicts must not flip when all
+    # cores are busy); only then are they reported as unknown
+    smt_by_id = {i: s for i, s, _ in jobs}
+    for i, (r, detail, backend, dt, model) in list(results.items()):
+        if r == 'unknown' and i in smt_by_id:
+            t0 = time.time()
+            r2, d2 = _z3_check(smt_by_id[i], 120000, 3, False)
+            if r2 != 'unknown':
+                results[i] = (r2, d2, 'z3(retry)', dt + time.time() - t0, {})
     out = []
     for i, vc in enumerate(vcs):
         r, detail, backend, dt, model = results[i]
